@@ -163,3 +163,402 @@ Proof.
 Qed.
 
 End WithM.
+
+(** ------------------------------------------------------------------ field lists and rdlength --- *)
+
+Lemma schema_rest_ok ty : rest_ok (Some 0) (schema_of ty) = true.
+Proof.
+  unfold schema_of. destruct ty as [|p]; [reflexivity|].
+  do 9 (try (destruct p as [p|p|]; try reflexivity)).
+Qed.
+
+Lemma fixed_size_len t v pos d b d' k :
+  wf_field t v -> enc_field t v pos d = Ok (b, d') -> fixed_size t = Some k -> blen b = k.
+Proof.
+  intros W E F. destruct t; cbn [fixed_size] in F; try discriminate;
+    destruct v; cbn [wf_field] in W; try contradiction; cbn [enc_field] in E;
+    assert (K : Some k = Some k) by reflexivity; inversion F; subst k; clear F K.
+  - destruct (enc_u k0 n) as [b0|] eqn:EU; [|discriminate]. apply enc_u_ok in EU as [-> _].
+    assert (b = to_be k0 n) by congruence. subst. apply blen_to_be.
+  - destruct (n <? 18446744073709551616); [|discriminate].
+    assert (b = dropN 2 (to_be 8 n)) by congruence. subst. rewrite blen_dropN, blen_to_be. reflexivity.
+  - destruct (_ && _)%bool; [|discriminate]. assert (b = to_be 4 (Z.to_N (z mod 4294967296))) by congruence.
+    subst. apply blen_to_be.
+  - assert (b = b0) by congruence. subst. exact W.
+Qed.
+
+Section WithM2.
+Variable M : list N.
+Hypothesis BO : bytes_ok M.
+
+Lemma fields_ok : forall ts vs pos d b d' c rdlen,
+  wf_fields ts vs -> enc_fields ts vs pos d = Ok (b, d') -> rest_ok c ts = true ->
+  (forall c0, c = Some c0 -> rdlen = c0 + blen b) -> at_ M pos b -> dict_inv M pos d ->
+  dec_fields M ts pos rdlen = Done (vs, pos + blen b) /\ dict_inv M (pos + blen b) d'.
+Proof.
+  induction ts as [|t r IH]; intros vs pos d b d' c rdlen W E RO RL A DI; destruct vs as [|v vr];
+    cbn [wf_fields] in W; try contradiction.
+  - cbn in E. inversion E; subst. cbn. rewrite N.add_0_r. split; [reflexivity|exact DI].
+  - destruct W as [Wt Wr]. cbn [enc_fields] in E.
+    destruct (enc_field t v pos d) as [[bt d1]|] eqn:ET; [|discriminate].
+    destruct (enc_fields r vr (pos + blen bt) d1) as [[br d2]|] eqn:ER; [|discriminate].
+    assert (b = bt ++ br) by congruence. assert (d' = d2) by congruence. subst b d'. clear E.
+    assert (rest_cond t bt rdlen) as RC.
+    { destruct t; cbn [rest_cond]; try exact I; cbn [rest_ok] in RO; destruct c as [c0|]; try discriminate;
+        apply andb_true_iff in RO as [H1 H2]; destruct r; try discriminate; destruct vr; try (cbn in Wr; contradiction);
+        cbn in ER; assert (br = []) by congruence; subst br; specialize (RL c0 eq_refl); rewrite app_nil_r in RL; lia. }
+    destruct (field_ok M BO t v pos d bt d1 rdlen Wt ET (at_app_l _ _ _ _ A) DI RC) as [DF DI1].
+    cbn [dec_fields]. rewrite DF. cbn [obind].
+    set (c' := match c, fixed_size t with Some c0, Some k => Some (c0 + k) | _, _ => None end).
+    assert (rest_ok c' r = true) as RO'.
+    { unfold c'. destruct t; cbn [rest_ok fixed_size] in RO |- *; try exact RO.
+      all: destruct c as [c0|]; [|discriminate]; apply andb_true_iff in RO as [_ H2];
+        destruct r; [reflexivity|discriminate]. }
+    destruct (IH vr (pos + blen bt) d1 br d2 c' rdlen Wr ER RO') as [DR DI2].
+    + intros c0' EC. unfold c' in EC. destruct c as [c0|]; [|discriminate].
+      destruct (fixed_size t) as [k|] eqn:FS; [|discriminate]. inversion EC; subst c0'.
+      rewrite (RL c0 eq_refl), blen_app, (fixed_size_len t v pos d bt d1 k Wt ET FS). lia.
+    + now apply at_app_r in A.
+    + exact DI1.
+    + rewrite DR. cbn [obind]. rewrite blen_app, N.add_assoc. split; [reflexivity|exact DI2].
+Qed.
+
+(** ------------------------------------------------------------------ resource records --- *)
+
+Lemma split4 (a b c e : list N) :
+  blen a = 2 -> blen b = 2 -> blen c = 4 ->
+  takeN 2 (a ++ b ++ c ++ e) = a /\ takeN 2 (dropN 2 (a ++ b ++ c ++ e)) = b
+  /\ takeN 4 (dropN 4 (a ++ b ++ c ++ e)) = c /\ dropN 8 (a ++ b ++ c ++ e) = e.
+Proof.
+  intros A B C. repeat split.
+  - rewrite <- A. apply takeN_app_exact.
+  - rewrite <- A at 2. rewrite dropN_app_exact. rewrite <- B. apply takeN_app_exact.
+  - replace 4 with (blen (a ++ b)) at 2 by (rewrite blen_app; lia). rewrite app_assoc, dropN_app_exact.
+    rewrite <- C. apply takeN_app_exact.
+  - replace 8 with (blen (a ++ b ++ c)) by (rewrite !blen_app; lia).
+    replace (a ++ b ++ c ++ e) with ((a ++ b ++ c) ++ e) by (now rewrite <- !app_assoc).
+    apply dropN_app_exact.
+Qed.
+
+Lemma rr_ok r pos d b d' :
+  wf_rr r -> enc_rr r pos d = Ok (b, d') -> at_ M pos b -> dict_inv M pos d ->
+  dec_rr M pos = Done (r, pos + blen b) /\ dict_inv M (pos + blen b) d'.
+Proof.
+  intros [WN WF] E A DI. destruct r as [nm ty cls ttl data]. cbn [r_name r_type r_cls r_ttl r_data] in *.
+  unfold enc_rr in E. cbn [r_name r_type r_cls r_ttl r_data] in E.
+  destruct (enc_name true nm pos d) as [[bn d1]|] eqn:EN; [|discriminate].
+  destruct (enc_u 2 ty) as [bt|] eqn:ET; [|discriminate].
+  destruct (enc_u 2 cls) as [bc|] eqn:EC; [|discriminate].
+  destruct (enc_u 4 ttl) as [bl|] eqn:EL; [|discriminate].
+  destruct (enc_fields (schema_of ty) data (pos + blen bn + 10) d1) as [[pl d2]|] eqn:EF; [|discriminate].
+  destruct (enc_u 2 (blen pl)) as [rl|] eqn:ERL; [|discriminate].
+  assert (b = bn ++ bt ++ bc ++ bl ++ rl ++ pl) by congruence. assert (d' = d2) by congruence. subst b d'. clear E.
+  apply enc_u_ok in ET as [-> LT]. apply enc_u_ok in EC as [-> LC]. apply enc_u_ok in EL as [-> LL].
+  apply enc_u_ok in ERL as [-> LR].
+  destruct (enc_name_sound true M nm pos d bn d1 WN EN DI (at_app_l _ _ _ _ A)) as [NB DI1].
+  unfold dec_rr. rewrite (dec_name_nbe M pos nm _ BO NB). cbn [obind].
+  apply at_app_r in A.
+  set (h10 := to_be 2 ty ++ to_be 2 cls ++ to_be 4 ttl ++ to_be 2 (blen pl)) in *.
+  assert (blen h10 = 10) as L10 by (unfold h10; rewrite !blen_app, !blen_to_be; reflexivity).
+  assert (at_ M (pos + blen bn) h10) as AH.
+  { replace (to_be 2 ty ++ to_be 2 cls ++ to_be 4 ttl ++ to_be 2 (blen pl) ++ pl) with (h10 ++ pl) in A
+      by (unfold h10; now rewrite <- !app_assoc). now apply at_app_l in A. }
+  rewrite (readp_at' M (pos + blen bn) h10 10 AH) by (symmetry; exact L10). cbn [obind].
+  destruct (split4 (to_be 2 ty) (to_be 2 cls) (to_be 4 ttl) (to_be 2 (blen pl))) as (S1 & S2 & S3 & S4);
+    try apply blen_to_be.
+  fold h10 in S1, S2, S3, S4. rewrite S1, S2, S3, S4.
+  rewrite !from_be_to_be_small by assumption.
+  assert (at_ M (pos + blen bn + 10) pl) as AP.
+  { replace (to_be 2 ty ++ to_be 2 cls ++ to_be 4 ttl ++ to_be 2 (blen pl) ++ pl) with (h10 ++ pl) in A
+      by (unfold h10; now rewrite <- !app_assoc). apply at_app_r in A. now rewrite L10 in A. }
+  destruct (fields_ok (schema_of ty) data (pos + blen bn + 10) d1 pl d2 (Some 0) (blen pl) WF EF (schema_rest_ok ty)) as [DF DI2].
+  - intros c0 EC0. inversion EC0. lia.
+  - exact AP.
+  - eapply dict_inv_mono; eauto. lia.
+  - rewrite DF. cbn [obind]. split.
+    + f_equal. f_equal. rewrite !blen_app, !blen_to_be. change (N.of_nat 2) with 2. change (N.of_nat 4) with 4. lia.
+    + replace (pos + blen (bn ++ to_be 2 ty ++ to_be 2 cls ++ to_be 4 ttl ++ to_be 2 (blen pl) ++ pl))
+        with (pos + blen bn + 10 + blen pl); [exact DI2|].
+      rewrite !blen_app, !blen_to_be. change (N.of_nat 2) with 2. change (N.of_nat 4) with 4. lia.
+Qed.
+
+Lemma query_ok q pos d b d' :
+  wf_query q -> enc_query q pos d = Ok (b, d') -> at_ M pos b -> dict_inv M pos d ->
+  dec_query M pos = Done (q, pos + blen b) /\ dict_inv M (pos + blen b) d'.
+Proof.
+  intros WN E A DI. destruct q as [nm ty cls]. unfold wf_query in WN. cbn [q_name] in WN.
+  unfold enc_query in E. cbn [q_name q_type q_cls] in E.
+  destruct (enc_name true nm pos d) as [[bn d1]|] eqn:EN; [|discriminate].
+  destruct (enc_u 2 ty) as [bt|] eqn:ET; [|discriminate].
+  destruct (enc_u 2 cls) as [bc|] eqn:EC; [|discriminate].
+  assert (b = bn ++ bt ++ bc) by congruence. assert (d' = d1) by congruence. subst b d'. clear E.
+  apply enc_u_ok in ET as [-> LT]. apply enc_u_ok in EC as [-> LC].
+  destruct (enc_name_sound true M nm pos d bn d1 WN EN DI (at_app_l _ _ _ _ A)) as [NB DI1].
+  unfold dec_query. rewrite (dec_name_nbe M pos nm _ BO NB). cbn [obind].
+  apply at_app_r in A.
+  rewrite (readp_at' M (pos + blen bn) (to_be 2 ty ++ to_be 2 cls) 4 A) by (rewrite blen_app, !blen_to_be; reflexivity).
+  cbn [obind].
+  replace (takeN 2 (to_be 2 ty ++ to_be 2 cls)) with (to_be 2 ty)
+    by (symmetry; rewrite <- (blen_to_be 2 ty) at 1; apply takeN_app_exact).
+  replace (dropN 2 (to_be 2 ty ++ to_be 2 cls)) with (to_be 2 cls)
+    by (symmetry; rewrite <- (blen_to_be 2 ty) at 1; apply dropN_app_exact).
+  rewrite !from_be_to_be_small by assumption. split.
+  - f_equal. f_equal. rewrite !blen_app, !blen_to_be. change (N.of_nat 2) with 2. lia.
+  - eapply dict_inv_mono; eauto. rewrite !blen_app. lia.
+Qed.
+
+(** ------------------------------------------------------------------ lists of items --- *)
+
+Lemma list_ok {T} (wfA : T -> Prop) (enc : T -> N -> dict -> res (list N * dict)) (dec : list N -> N -> outcome (T * N)) :
+  (forall a pos d b d', wfA a -> enc a pos d = Ok (b, d') -> at_ M pos b -> dict_inv M pos d ->
+     dec M pos = Done (a, pos + blen b) /\ dict_inv M (pos + blen b) d') ->
+  forall l pos d b d' acc, Forall wfA l -> enc_list enc l pos d = Ok (b, d') -> at_ M pos b -> dict_inv M pos d ->
+    dec_loop dec (length l) M pos acc = Done (acc ++ l, pos + blen b, false) /\ dict_inv M (pos + blen b) d'.
+Proof.
+  intros H. induction l as [|x r IH]; intros pos d b d' acc W E A DI.
+  - cbn in E. inversion E; subst. cbn. rewrite app_nil_r, N.add_0_r. split; [reflexivity|exact DI].
+  - inversion W as [|? ? Wx Wr]; subst. cbn [enc_list] in E.
+    destruct (enc x pos d) as [[bx d1]|] eqn:EX; [|discriminate].
+    destruct (enc_list enc r (pos + blen bx) d1) as [[br d2]|] eqn:ER; [|discriminate].
+    assert (b = bx ++ br) by congruence. assert (d' = d2) by congruence. subst b d'. clear E.
+    destruct (H x pos d bx d1 Wx EX (at_app_l _ _ _ _ A) DI) as [DX DI1].
+    cbn [length dec_loop]. rewrite DX.
+    destruct (IH (pos + blen bx) d1 br d2 (acc ++ [x]) Wr ER (at_app_r _ _ _ _ A) DI1) as [DR DI2].
+    rewrite DR. rewrite <- app_assoc, blen_app, N.add_assoc. split; [reflexivity|exact DI2].
+Qed.
+
+End WithM2.
+
+(** ------------------------------------------------------------------ the header --- *)
+
+Fixpoint all_below (k : nat) (f : N -> bool) : bool :=
+  match k with O => true | S k' => f (N.of_nat k') && all_below k' f end.
+
+Lemma all_below_spec k f : all_below k f = true -> forall n, n < N.of_nat k -> f n = true.
+Proof.
+  induction k as [|k IH]; intros H n L; [cbn in L; lia|].
+  cbn [all_below] in H. apply andb_true_iff in H as [H1 H2].
+  destruct (N.eq_dec n (N.of_nat k)) as [->|NE]; [exact H1|]. apply IH; [exact H2|lia].
+Qed.
+
+Definition byte3_of (answer opCode auth trunc recDes : N) : N :=
+  N.lor (N.shiftl (N.land answer 1) 7) (N.lor (N.shiftl (N.land opCode 15) 3)
+  (N.lor (N.shiftl (N.land auth 1) 2) (N.lor (N.shiftl (N.land trunc 1) 1) (N.land recDes 1)))).
+Definition byte4_of (recAv ad cd rCode : N) : N :=
+  N.lor (N.shiftl (N.land recAv 1) 7) (N.lor (N.shiftl (N.land ad 1) 5)
+  (N.lor (N.shiftl (N.land cd 1) 4) (N.land rCode 15))).
+
+Definition flags3_ok (a o au t r : N) : bool :=
+  let b := byte3_of a o au t r in
+  (bit b 7 =? a) && (N.land (N.shiftr b 3) 15 =? o) && (bit b 2 =? au) && (bit b 1 =? t) && (bit b 0 =? r) && (b <? 256).
+Definition flags4_ok (ra ad cd rc : N) : bool :=
+  let b := byte4_of ra ad cd rc in
+  (bit b 7 =? ra) && (bit b 5 =? ad) && (bit b 4 =? cd) && (N.land b 15 =? rc) && (b <? 256).
+
+Lemma flags3_all : all_below 2 (fun a => all_below 16 (fun o => all_below 2 (fun au => all_below 2 (fun t =>
+                   all_below 2 (fun r => flags3_ok a o au t r))))) = true.
+Proof. vm_compute. reflexivity. Qed.
+Lemma flags4_all : all_below 2 (fun ra => all_below 2 (fun ad => all_below 2 (fun cd => all_below 16 (fun rc =>
+                   flags4_ok ra ad cd rc)))) = true.
+Proof. vm_compute. reflexivity. Qed.
+
+Lemma flags3 a o au t r : a <= 1 -> o <= 15 -> au <= 1 -> t <= 1 -> r <= 1 -> flags3_ok a o au t r = true.
+Proof.
+  intros.
+  pose proof (all_below_spec _ _ flags3_all a ltac:(cbn; lia)) as Ha. cbv beta in Ha.
+  pose proof (all_below_spec _ _ Ha o ltac:(cbn; lia)) as Ho. cbv beta in Ho.
+  pose proof (all_below_spec _ _ Ho au ltac:(cbn; lia)) as Hau. cbv beta in Hau.
+  pose proof (all_below_spec _ _ Hau t ltac:(cbn; lia)) as Ht. cbv beta in Ht.
+  exact (all_below_spec _ _ Ht r ltac:(cbn; lia)).
+Qed.
+Lemma flags4 ra ad cd rc : ra <= 1 -> ad <= 1 -> cd <= 1 -> rc <= 15 -> flags4_ok ra ad cd rc = true.
+Proof.
+  intros.
+  pose proof (all_below_spec _ _ flags4_all ra ltac:(cbn; lia)) as Ha. cbv beta in Ha.
+  pose proof (all_below_spec _ _ Ha ad ltac:(cbn; lia)) as Hb. cbv beta in Hb.
+  pose proof (all_below_spec _ _ Hb cd ltac:(cbn; lia)) as Hc. cbv beta in Hc.
+  exact (all_below_spec _ _ Hc rc ltac:(cbn; lia)).
+Qed.
+
+Lemma to_be2_form x : exists p q, to_be 2 x = [p; q].
+Proof. cbn [to_be app]. eauto. Qed.
+
+Lemma from_be_1 x : from_be [x] = x.
+Proof. unfold from_be. cbn [fold_left]. cbn. reflexivity. Qed.
+
+(** ------------------------------------------------------------------ whole messages --- *)
+
+Theorem message_roundtrip_untruncated m mx body b :
+  wf_message m -> enc_body m = Ok body -> (mx = 0 \/ blen body + 12 <= mx) ->
+  enc_message m mx = Ok b -> bytes_ok b ->
+  b = firstn 12 b ++ body /\ dec_message b = Done m.
+Proof.
+  intros (WH & WQ & WA & WN & WD) EB NT EM BO.
+  unfold enc_message in EM. rewrite EB in EM.
+  replace (negb (mx =? 0) && (mx <? blen body + 12))%bool with false in EM
+    by (destruct NT as [->|L]; [reflexivity|destruct (mx =? 0); cbn [negb andb]; lia]).
+  destruct (enc_header (m_hdr m) (h_trunc (m_hdr m)) (blen (m_queries m)) (blen (m_answers m))
+                       (blen (m_authority m)) (blen (m_additional m))) as [h|] eqn:EH; [|discriminate].
+  assert (b = h ++ body) by congruence. subst b. clear EM.
+  destruct m as [hd qs an ns ad]. cbn [m_hdr m_queries m_answers m_authority m_additional] in *.
+  destruct hd as [id answer opCode auth trunc recDes recAv adata cdis rCode].
+  unfold wf_header in WH. cbn [h_answer h_opCode h_auth h_trunc h_recDes h_recAv h_authenticData h_checkingDisabled h_rCode] in WH.
+  destruct WH as (W1 & W2 & W3 & W4 & W5 & W6 & W7 & W8 & W9).
+  unfold enc_header in EH. cbn [h_id h_answer h_opCode h_auth h_trunc h_recDes h_recAv h_authenticData h_checkingDisabled h_rCode] in EH.
+  fold (byte3_of answer opCode auth trunc recDes) in EH. fold (byte4_of recAv adata cdis rCode) in EH.
+  destruct (enc_u 2 id) as [bi|] eqn:E1; [|discriminate].
+  destruct (enc_u 2 (blen qs)) as [bq|] eqn:E2; [|discriminate].
+  destruct (enc_u 2 (blen an)) as [ba|] eqn:E3; [|discriminate].
+  destruct (enc_u 2 (blen ns)) as [bn|] eqn:E4; [|discriminate].
+  destruct (enc_u 2 (blen ad)) as [bd|] eqn:E5; [|discriminate].
+  apply enc_u_ok in E1 as [-> L1]. apply enc_u_ok in E2 as [-> L2]. apply enc_u_ok in E3 as [-> L3].
+  apply enc_u_ok in E4 as [-> L4]. apply enc_u_ok in E5 as [-> L5].
+  set (b3 := byte3_of answer opCode auth trunc recDes) in *. set (b4 := byte4_of recAv adata cdis rCode) in *.
+  assert (h = to_be 2 id ++ [b3; b4] ++ to_be 2 (blen qs) ++ to_be 2 (blen an) ++ to_be 2 (blen ns) ++ to_be 2 (blen ad))
+    as Hh by congruence. clear EH.
+  destruct (to_be2_form id) as (i1 & i2 & Fi). destruct (to_be2_form (blen qs)) as (q1 & q2 & Fq).
+  destruct (to_be2_form (blen an)) as (a1 & a2 & Fa). destruct (to_be2_form (blen ns)) as (n1 & n2 & Fn).
+  destruct (to_be2_form (blen ad)) as (d1 & d2 & Fd).
+  assert (h = [i1; i2; b3; b4; q1; q2; a1; a2; n1; n2; d1; d2]) as Hx
+    by (rewrite Hh, Fi, Fq, Fa, Fn, Fd; reflexivity).
+  assert (from_be [i1; i2] = id) as Gi by (rewrite <- Fi; now apply from_be_to_be_small).
+  assert (from_be [q1; q2] = blen qs) as Gq by (rewrite <- Fq; now apply from_be_to_be_small).
+  assert (from_be [a1; a2] = blen an) as Ga by (rewrite <- Fa; now apply from_be_to_be_small).
+  assert (from_be [n1; n2] = blen ns) as Gn by (rewrite <- Fn; now apply from_be_to_be_small).
+  assert (from_be [d1; d2] = blen ad) as Gd by (rewrite <- Fd; now apply from_be_to_be_small).
+  clear Hh. subst h. split; [reflexivity|].
+  set (M := [i1; i2; b3; b4; q1; q2; a1; a2; n1; n2; d1; d2] ++ body) in *.
+  (* the body and its four sections *)
+  unfold enc_body in EB. cbn [m_queries m_answers m_authority m_additional] in EB.
+  destruct (enc_list enc_query qs 12 []) as [[s1 dq]|] eqn:S1; [|discriminate].
+  destruct (enc_list enc_rr an (12 + blen s1) dq) as [[s2 da]|] eqn:S2; [|discriminate].
+  destruct (enc_list enc_rr ns (12 + blen s1 + blen s2) da) as [[s3 dn]|] eqn:S3; [|discriminate].
+  destruct (enc_list enc_rr ad (12 + blen s1 + blen s2 + blen s3) dn) as [[s4 dd]|] eqn:S4; [|discriminate].
+  assert (body = s1 ++ s2 ++ s3 ++ s4) by congruence. subst body. clear EB.
+  assert (at_ M 12 (s1 ++ s2 ++ s3 ++ s4)) as AB.
+  { exists [i1; i2; b3; b4; q1; q2; a1; a2; n1; n2; d1; d2], []. split; [unfold M; now rewrite app_nil_r|reflexivity]. }
+  destruct (list_ok M wf_query enc_query dec_query (query_ok M BO) qs 12 [] s1 dq [] WQ S1
+              (at_app_l _ _ _ _ AB) (dict_inv_nil M 12)) as [R1 I1].
+  apply at_app_r in AB.
+  destruct (list_ok M wf_rr enc_rr dec_rr (rr_ok M BO) an (12 + blen s1) dq s2 da [] WA S2
+              (at_app_l _ _ _ _ AB) I1) as [R2 I2].
+  apply at_app_r in AB.
+  destruct (list_ok M wf_rr enc_rr dec_rr (rr_ok M BO) ns (12 + blen s1 + blen s2) da s3 dn [] WN S3
+              (at_app_l _ _ _ _ AB) I2) as [R3 I3].
+  apply at_app_r in AB.
+  destruct (list_ok M wf_rr enc_rr dec_rr (rr_ok M BO) ad (12 + blen s1 + blen s2 + blen s3) dn s4 dd [] WD S4 AB I3)
+    as [R4 _].
+  (* decoding *)
+  unfold dec_message.
+  assert (readp M 0 12 = Done ([i1; i2; b3; b4; q1; q2; a1; a2; n1; n2; d1; d2], 12)) as RH.
+  { apply (readp_at' M 0 [i1; i2; b3; b4; q1; q2; a1; a2; n1; n2; d1; d2] 12); [|reflexivity].
+    exists [], (s1 ++ s2 ++ s3 ++ s4). split; [reflexivity|reflexivity]. }
+  rewrite RH. cbn [obind].
+  cbn [takeN dropN N.eqb N.pred Pos.pred_N Pos.pred_double].
+  rewrite Gi, Gq, Ga, Gn, Gd, !from_be_1.
+  pose proof (flags3 answer opCode auth trunc recDes W1 W2 W3 W4 W5) as F3.
+  pose proof (flags4 recAv adata cdis rCode W6 W7 W8 W9) as F4.
+  unfold flags3_ok in F3. unfold flags4_ok in F4. fold b3 in F3. fold b4 in F4.
+  repeat (apply andb_true_iff in F3 as [F3 ?]). repeat (apply andb_true_iff in F4 as [F4 ?]).
+  replace (bit b3 7) with answer by lia. replace (N.land (N.shiftr b3 3) 15) with opCode by lia.
+  replace (bit b3 2) with auth by lia. replace (bit b3 1) with trunc by lia. replace (bit b3 0) with recDes by lia.
+  replace (bit b4 7) with recAv by lia. replace (bit b4 5) with adata by lia. replace (bit b4 4) with cdis by lia.
+  replace (N.land b4 15) with rCode by lia.
+  unfold blen at 1. rewrite Nnat.Nat2N.id. rewrite R1. cbn [obind app].
+  unfold dec_section. unfold blen at 1. rewrite Nnat.Nat2N.id. rewrite R2. cbn [obind app].
+  unfold blen at 1. rewrite Nnat.Nat2N.id. rewrite R3. cbn [obind app].
+  unfold blen at 1. rewrite Nnat.Nat2N.id. rewrite R4. cbn [obind app]. reflexivity.
+Qed.
+
+(** ------------------------------------------------------------------ truncation --- *)
+
+(** Message.encode with a size limit that is exceeded: exactly [mx] bytes come out, the header is
+    the one of the whole message with the TC bit set, and the body is a prefix of the whole body *)
+Lemma truncated_shape m mx body b :
+  wf_message m -> enc_body m = Ok body -> 12 <= mx -> mx < blen body + 12 -> enc_message m mx = Ok b ->
+  exists h, enc_header (m_hdr m) 1 (blen (m_queries m)) (blen (m_answers m)) (blen (m_authority m)) (blen (m_additional m)) = Ok h
+    /\ b = h ++ takeN (mx - 12) body /\ blen h = 12 /\ blen b = mx
+    /\ bit (nth 2 b 0) 1 = 1.
+Proof.
+  intros (WH & _) EB L12 LT EM. unfold enc_message in EM. rewrite EB in EM.
+  replace (negb (mx =? 0) && (mx <? blen body + 12))%bool with true in EM
+    by (destruct (mx =? 0) eqn:Z; cbn [negb andb]; lia).
+  destruct (enc_header (m_hdr m) 1 _ _ _ _) as [h|] eqn:EH; [|discriminate].
+  assert (b = h ++ takeN (mx - 12) body) by congruence. subst b. clear EM.
+  exists h. split; [reflexivity|]. split; [reflexivity|].
+  unfold enc_header in EH.
+  destruct (enc_u 2 (h_id (m_hdr m))) as [bi|] eqn:E1; [|discriminate].
+  destruct (enc_u 2 (blen (m_queries m))) as [bq|] eqn:E2; [|discriminate].
+  destruct (enc_u 2 (blen (m_answers m))) as [ba|] eqn:E3; [|discriminate].
+  destruct (enc_u 2 (blen (m_authority m))) as [bn|] eqn:E4; [|discriminate].
+  destruct (enc_u 2 (blen (m_additional m))) as [bd|] eqn:E5; [|discriminate].
+  apply enc_u_ok in E1 as [-> _]. apply enc_u_ok in E2 as [-> _]. apply enc_u_ok in E3 as [-> _].
+  apply enc_u_ok in E4 as [-> _]. apply enc_u_ok in E5 as [-> _].
+  destruct (to_be2_form (h_id (m_hdr m))) as (i1 & i2 & Fi). rewrite Fi in EH.
+  destruct (m_hdr m) as [id answer opCode auth trunc recDes recAv adata cdis rCode].
+  unfold wf_header in WH. cbn [h_answer h_opCode h_auth h_trunc h_recDes h_recAv h_authenticData h_checkingDisabled h_rCode] in *.
+  destruct WH as (W1 & W2 & W3 & W4 & W5 & _).
+  fold (byte3_of answer opCode auth 1 recDes) in EH.
+  injection EH as <-.
+  match goal with |- blen ?hh = 12 /\ _ => set (h := hh) end.
+  assert (blen h = 12) as L by (unfold h; reflexivity).
+  split; [exact L|]. split.
+  - rewrite blen_app, blen_takeN, L. lia.
+  - assert (nth 2 (h ++ takeN (mx - 12) body) 0 = byte3_of answer opCode auth 1 recDes) as N2
+      by (unfold h; reflexivity).
+    rewrite N2. pose proof (flags3 answer opCode auth 1 recDes W1 W2 W3 ltac:(lia) W5) as F3.
+    unfold flags3_ok in F3. repeat (apply andb_true_iff in F3 as [F3 ?]). lia.
+Qed.
+
+(** ------------------------------------------------------------------ statements as exported --- *)
+
+Lemma name_roundtrip M c ls pos d b d' :
+  bytes_ok M -> name_ok ls -> enc_name c ls pos d = Ok (b, d') -> dict_inv M pos d -> at_ M pos b ->
+  dec_name M pos = Done (ls, pos + blen b) /\ dict_inv M (pos + blen b) d'.
+Proof.
+  intros BO NOK E DI A.
+  destruct (enc_name_sound c M ls pos d b d' NOK E DI A) as [NB DI']. split; [|exact DI'].
+  exact (dec_name_nbe M pos ls _ BO NB).
+Qed.
+
+Lemma schema_roundtrip_lemma M ts vs pos d b d' rdlen :
+  bytes_ok M -> wf_fields ts vs -> enc_fields ts vs pos d = Ok (b, d') -> rest_ok (Some 0) ts = true ->
+  rdlen = blen b -> at_ M pos b -> dict_inv M pos d ->
+  dec_fields M ts pos rdlen = Done (vs, pos + blen b) /\ dict_inv M (pos + blen b) d'.
+Proof.
+  intros BO W E RO RL A DI.
+  apply (fields_ok M BO ts vs pos d b d' (Some 0) rdlen W E RO); auto.
+  intros c0 EC. inversion EC. lia.
+Qed.
+
+Lemma refusal M c ls pos d :
+  (255 < wire_len ls -> enc_name c ls pos d = Err ValueError) /\
+  (Exists (fun l => 63 < blen l) ls -> dict_inv M pos d -> enc_name c ls pos d = Err ValueError).
+Proof.
+  split; [exact (enc_name_refuses_long_name c ls pos d)|].
+  intros EX DI. exact (enc_name_refuses_long_label c M ls pos d EX DI).
+Qed.
+
+Lemma encoded_name_nbe M c ls pos d b d' :
+  name_ok ls -> enc_name c ls pos d = Ok (b, d') -> dict_inv M pos d -> at_ M pos b -> nbe M pos pos ls (pos + blen b).
+Proof. intros NOK E DI A. exact (proj1 (enc_name_sound c M ls pos d b d' NOK E DI A)). Qed.
+
+Lemma message_roundtrip_lemma m mx body b :
+  wf_message m -> enc_body m = Ok body -> (mx = 0 \/ blen body + 12 <= mx) ->
+  enc_message m mx = Ok b -> bytes_ok b -> dec_message b = Done m.
+Proof. intros W EB NT EM BO. exact (proj2 (message_roundtrip_untruncated m mx body b W EB NT EM BO)). Qed.
+
+(** the hypotheses are inhabited: a response with a compressed SOA, an MX and a TXT record *)
+Example wf_example :
+  let nm := [[101;120;97;109;112;108;101]; [99;111;109]] in
+  let m := mkM (mkH 4660 1 0 1 0 1 1 0 0 0) [mkQ nm 6 1]
+               [mkRR nm 6 1 3600 [VName ([110;115] :: nm); VName ([114;111;111;116] :: nm); VU 2024; VS 7200; VS (-1); VS 1209600; VU 300];
+                mkRR nm 15 1 60 [VU 10; VName ([109;120] :: nm)]]
+               [] [mkRR ([119;119;119] :: nm) 16 1 0 [VList [[104;105]; []]]] in
+  wf_message m /\ exists b, enc_message m 512 = Ok b /\ dec_message b = Done m /\ blen b = 112.
+Proof.
+  cbn zeta. split.
+  - unfold wf_message, wf_header, wf_query, wf_rr, name_ok. cbn.
+    repeat split; repeat constructor; cbn; lia.
+  - eexists. split; [vm_compute; reflexivity|]. split; vm_compute; reflexivity.
+Qed.
